@@ -16,5 +16,15 @@ CHECKS = {
   "note": "Trusted: clang 14 CFG of the host preprocessor branch; C++ memory-model reasoning that acquire-observation + release-advance on "
           "one word is the publication protocol; client callbacks opaque.",
   "technique": "static analysis: path/dominance rules over inlined CFG facts of template instantiations (custom libTooling extractor)"},
+ "C02": {
+  "text": "Decides the structural clauses of the sleeper/waker protocol per instantiation: a futex wait is reachable only through the "
+          "success edge of the waiter-bit CAS or an observation of the bit (so the waker's test cannot miss a registered sleeper), the CAS "
+          "installs observed+2^16, the single waker advances by an RMW whose result decides wake_all and cannot skip it, the batch waker "
+          "re-loads behind a seq_cst fence on every path from the 16-bit stores with the 2^16 threshold, every USE_FUTEX_WAKE=true "
+          "public entry reaches a waiter check after each version store on all paths, and the timed exclusive pop only waits with the "
+          "caller's deadline. Each is a necessary condition: breaking it yields a 3-step window with a sleeper never woken, which the "
+          "100 ms-sleep tests cannot hit. Global deadlock freedom and kernel futex behaviour are not decided.",
+  "note": "Trusted: kernel futex compare-and-block semantics; clang 14 CFG; x86-64 branch of the sources.",
+  "technique": "static analysis: edge-guard / must-pass-through / provenance rules over inlined CFG facts (custom libTooling extractor)"},
 }
 NOT_APPLICABLE = {("C%02d" % i): PENDING for i in range(1, 21) if ("C%02d" % i) not in CHECKS}
